@@ -32,7 +32,35 @@ class StrV:
     def ite_with(self, g, other):
         if self.s == other.s:
             return self
-        raise Unsupported('ite of different concrete strings %r / %r' % (self.s, other.s))
+        return StrChoice(ite(g, len(self.s) == 0, len(other.s) == 0), [(g, self), (b_not(g), other)])
+
+
+class StrChoice:
+    """one of several concrete strings, selected by path conditions (error messages mostly); emptiness is tracked"""
+    __slots__ = ('empty', 'cases')
+
+    def __init__(self, empty, cases):
+        self.empty, self.cases = empty, cases
+
+    def ite_with(self, g, o):
+        return StrChoice(ite(g, self.empty, o.empty), [(b_and(g, c), v) for c, v in self.cases] + [(b_and(b_not(g), c), v) for c, v in o.cases])
+
+    def ite_mixed(self, g, other, self_is_then):
+        if isinstance(other, StrV):
+            o = StrChoice(len(other.s) == 0, [(True, other)])
+            return self.ite_with(g, o) if self_is_then else o.ite_with(g, self)
+        if hasattr(other, 'ite_mixed'):
+            return other.ite_mixed(g, self, not self_is_then)
+        raise Unsupported('ite of string choice with %r' % (other,))
+
+    def is_empty_model(self, ctx):
+        return self.empty
+
+    def eq_model(self, ctx, other):
+        other = as_str(ctx, other)
+        if isinstance(other, StrV):
+            return b_or(*[b_and(c, v.s == other.s) for c, v in self.cases])
+        raise Unsupported('comparison of a string choice with %r' % (other,))
 
 
 class IterV:
@@ -47,10 +75,12 @@ class IterV:
     def ite_with(self, g, other):
         if self.stages is not other.stages and self.stages != other.stages:
             raise Unsupported('ite of iterators with different adaptors')
-        if len(self.ents) != len(other.ents):
-            raise Unsupported('ite of iterators of different remaining length')
-        return IterV(tuple((ite(g, a[0], b[0]) if a[0] is not b[0] else a[0], ite(g, a[1], b[1]))
-                           for a, b in zip(self.ents, other.ents)), self.stages, self.count)
+        if len(self.ents) == len(other.ents):
+            return IterV(tuple((ite(g, a[0], b[0]) if a[0] is not b[0] else a[0], ite(g, a[1], b[1]))
+                               for a, b in zip(self.ents, other.ents)), self.stages, self.count)
+        ng = b_not(g)
+        return IterV(tuple((b_and(g, x), v) for x, v in self.ents) + tuple((b_and(ng, x), v) for x, v in other.ents),
+                     self.stages, self.count)
 
 
 def mk_option(cond, val):
@@ -228,6 +258,16 @@ def _opt_map(ctx, o, clos):
 @model(r'^std::option::Option::<.*>::ok_or::<.*>$')
 def _opt_ok_or(ctx, o, e):
     c = opt_is_some(o)
+    d = ite(c, CI(0, 64), CI(1, 64))
+    return Enum(d, {0: (opt_val(o),), 1: (e,)})
+
+
+@model(r'^std::option::Option::<.*>::ok_or_else::<.*>$')
+def _opt_ok_or_else(ctx, o, clos):
+    c = opt_is_some(o)
+    if c is True:
+        return Enum(CI(0, 64), {0: (opt_val(o),)})
+    e = call_under(ctx, b_not(c), clos, [])
     d = ite(c, CI(0, 64), CI(1, 64))
     return Enum(d, {0: (opt_val(o),), 1: (e,)})
 
@@ -994,7 +1034,22 @@ def _iter_next(ctx, p):
         return NONE
     g, v = it.ents[0]
     if g is not True:
-        raise Unsupported('next() on sparse iterator')
+        # sparse sequence: the next element is the first entry whose guard holds; what remains are the later
+        # entries that hold and have a holding predecessor
+        ents = [e for e in it.ents if e[0] is not False]
+        if not ents:
+            return NONE
+        any_true = b_or(*[e[0] for e in ents])
+        val = ents[-1][1]
+        for gi, vi in reversed(ents[:-1]):
+            val = ite(gi, vi, val)
+        rest = []
+        seen = False
+        for gi, vi in ents:
+            rest.append((b_and(gi, seen), vi))
+            seen = b_or(seen, gi)
+        ctx.write(p, IterV(tuple(e for e in rest if e[0] is not False), (), it.count + 1))
+        return mk_option(any_true, val)
     ctx.write(p, IterV(it.ents[1:], (), it.count + 1))
     return some(v)
 
@@ -1180,7 +1235,7 @@ def _char_to_string(ctx, p):
     return StrV(chr(c.v))
 
 
-@model(r'^<str as std::string::ToString>::to_string$')
+@model(r'^<&?str as std::string::ToString>::to_string$')
 def _str_to_string(ctx, s):
     return as_str(ctx, s)
 
